@@ -162,7 +162,108 @@ def section_fingerprint(serif, out):
     out.append("")
 
 
-SECTIONS = [section_typing, section_fingerprint]
+def _find_func(tree, cls, name):
+    for node in ast.walk(tree):
+        if isinstance(node, ast.ClassDef) and node.name == cls:
+            for f in node.body:
+                if isinstance(f, ast.FunctionDef) and f.name == name:
+                    return f
+    return None
+
+
+def _defines_key_fn(node):
+    for n in ast.walk(node):
+        if isinstance(n, ast.FunctionDef) and n.name == "key_fn":
+            return True
+        if isinstance(n, ast.Assign) and any(isinstance(t, ast.Name) and t.id == "key_fn" for t in n.targets):
+            return True
+    return False
+
+
+def _key_fn_stmt(body):
+    """the smallest statement that defines `key_fn` and can be executed on its own: descend through loops
+    (their iterables are not available), stop at a def / assignment / if that contains the definition"""
+    for st in body:
+        if not _defines_key_fn(st):
+            continue
+        if isinstance(st, (ast.For, ast.While, ast.With, ast.Try)):
+            inner = _key_fn_stmt(st.body)
+            if inner is not None:
+                return inner
+        return st
+    return None
+
+
+def sort_flag_table(path, cls):
+    """truth table (is_none, reverse, na_last) -> flag of the key function of `cls.sort_by`, obtained by locating the
+    statement that defines `key_fn` with ast and executing it for every (reverse, na_last) on a None and a non-None value"""
+    src = open(path).read()
+    fn = _find_func(ast.parse(src), cls, "sort_by")
+    if fn is None:
+        raise LookupError(f"{cls}.sort_by not found")
+    st = _key_fn_stmt(fn.body)
+    if st is None:
+        raise LookupError(f"no key_fn inside {cls}.sort_by")
+    code = compile(ast.Module(body=[st], type_ignores=[]), f"<{cls}.sort_by key_fn>", "exec")
+    import inspect
+    table = {}
+    for is_none in (False, True):
+        val = None if is_none else 1
+        for rev in (False, True):
+            for na_last in (False, True):
+                env = {"data": [val], "rev": rev, "reverse": rev, "na_last": na_last}
+                exec(code, env)
+                kf = env["key_fn"]
+                # arguments by parameter name: an index into `data`, the direction, na_last; anything else is the value
+                args = []
+                for pn, par in inspect.signature(kf).parameters.items():
+                    if pn in ("i", "idx", "index"):
+                        args.append(0)
+                    elif pn in ("rev", "reverse"):
+                        args.append(rev)
+                    elif pn == "na_last":
+                        args.append(na_last)
+                    elif pn == "data":
+                        args.append([val])
+                    elif par.default is inspect.Parameter.empty:
+                        args.append(val)
+                    else:
+                        break
+                key = kf(*args)
+                flag = key[0]
+                if not isinstance(flag, bool):
+                    raise TypeError("flag component of the sort key is not a bool")
+                table[(is_none, rev, na_last)] = flag
+    return table
+
+
+def _emit_flag_table(out, name, doc, table):
+    out.append(f"/-- {doc} -/")
+    out.append(f"def {name} (isNone rev naLast : Bool) : Bool :=")
+    if table is None:
+        out.append("  (isNone && rev && naLast) && false   -- extraction failed: neutral value")
+    else:
+        out.append("  match isNone, rev, naLast with")
+        for k in sorted(table):
+            out.append(f"  | {lean_bool(k[0])}, {lean_bool(k[1])}, {lean_bool(k[2])} => {lean_bool(table[k])}")
+    out.append("")
+
+
+def section_sort(serif, out):
+    """C14: the None-flag of the sort keys of Table.sort_by and Vector.sort_by"""
+    errs = []
+    for name, fname, cls in (("sortFlagTable", "table.py", "Table"), ("sortFlagVector", "vector.py", "Vector")):
+        try:
+            tbl = sort_flag_table(os.path.join(SRC, "serif", fname), cls)
+        except Exception as e:
+            tbl = None
+            errs.append(f"{name}: {type(e).__name__}: {e}")
+        _emit_flag_table(out, name, f"first component of the key tuple built by `key_fn` inside `{cls}.sort_by`, "
+                         "executed on a None / non-None value for every (reverse, na_last)", tbl)
+    if errs:
+        raise LookupError("; ".join(errs))
+
+
 
 
 def generate():
@@ -170,7 +271,7 @@ def generate():
     out = ["/- GENERATED by harness/extract_consts.py from /repo's working tree — do not edit. -/",
            "namespace Serif.Gen", ""]
     errors = []
-    for sec in SECTIONS:
+    for sec in [v for k, v in list(globals().items()) if k.startswith('section_') and callable(v)]:
         try:
             sec(serif, out)
         except Exception as e:  # a section that cannot be extracted emits nothing
